@@ -240,67 +240,79 @@ inductive Act where
   | adv (d : Nat)
   deriving DecidableEq, Repr
 
-def World.setTask (w : World) (tid : Nat) (t : Task) : World :=
-  { w with tasks := fun i => if i = tid then t else w.tasks i }
+/-- what one step of one task does: new shared state, new task state, store mutations made -/
+structure Eff where
+  store : Store
+  lock : Locks
+  task : Task
+  muts : List Mut := []
+
+/-- a command of a task outside any transaction goes straight to the backend -/
+def directStep (now : Nat) (store : Store) (lock : Locks) (t : Task) : Cmd → Eff
+  | .set k v =>
+    { store := (Mut.directSet k v).apply store, lock := lock, task := settle now t.prog t, muts := [.directSet k v] }
+  | .incr k n =>
+    -- Memory.incr: `value += int(self._get(key, 0))`
+    let v := (store k).getD 0 + n
+    let t1 := { t with results := t.results ++ [some v] }
+    { store := (Mut.directSet k v).apply store, lock := lock, task := settle now t1.prog t1, muts := [.directSet k v] }
+  | .get k =>
+    let t1 := { t with results := t.results ++ [store k] }
+    { store := store, lock := lock, task := settle now t1.prog t1 }
+  | .delete k =>
+    { store := (Mut.directDel k).apply store, lock := lock, task := settle now t.prog t, muts := [.directDel k] }
+  | _ => { store := store, lock := lock, task := t }
 
 /-- the task `tid` is released from its gate: it executes the backend command it was parked before and
 runs on to its next gate -/
-def World.runTask (w : World) (tid : Nat) : World :=
-  let t := w.tasks tid
+def taskStep (tid now : Nat) (store : Store) (lock : Locks) (t : Task) : Eff :=
   match t.pc with
   | .start =>
     -- tx: `__aenter__` → `start()`: `_transaction.set(Transaction(mode, timeout))`
-    let t1 := if t.isTx then { t with ctx := true, enterAt := w.now } else t
-    w.setTask tid (settle w.now t1.prog t1)
+    let t1 := if t.isTx then { t with ctx := true, enterAt := now } else t
+    { store := store, lock := lock, task := settle now t1.prog t1 }
   | .lockTry k left =>
     let l := lockKeyOf t.mode k
-    if lockFree w.lock l w.now then
+    if lockFree lock l now then
       -- `set_lock(lock_key, self._lock_id, expire=self._timeout)` succeeded: `_locks.add(lock_key)`
       let t1 := { t with locks := insertLock l t.locks }
-      { w with lock := fun l' => if l' = l then some (tid, w.now + t.timeout) else w.lock l' }.setTask tid
-        (settle w.now t1.prog t1)
+      { store := store, lock := fun l' => if l' = l then some (tid, now + t.timeout) else lock l',
+        task := settle now t1.prog t1 }
     else
-      w.setTask tid { t with pc := .lockSleep k left (w.now + 4) }
-  | .lockSleep _ _ _ => w
-  | .bodySleep _ => w
+      -- failed: `await asyncio.sleep(step)`
+      { store := store, lock := lock, task := { t with pc := .lockSleep k left (now + 4) } }
+  | .lockSleep _ _ _ => { store := store, lock := lock, task := t }
+  | .bodySleep _ => { store := store, lock := lock, task := t }
   | .seedGet k n =>
-    let cur := (w.store k).getD 0
+    -- `current = await self._backend.get(key, 0); local.set(key, current); return local.incr(key, value)`
+    let cur := (store k).getD 0
     let t1 := { t with ov := t.ov.put k (cur + n), results := t.results ++ [some (cur + n)],
-                       reads := t.reads ++ [w.store k] }
-    w.setTask tid (settle w.now t1.prog t1)
+                       reads := t.reads ++ [store k] }
+    { store := store, lock := lock, task := settle now t1.prog t1 }
   | .readGet k =>
-    let t1 := { t with results := t.results ++ [w.store k], reads := t.reads ++ [w.store k] }
-    w.setTask tid (settle w.now t1.prog t1)
-  | .direct c =>
-    match c with
-    | .set k v =>
-      { w with store := (Mut.directSet k v).apply w.store, log := w.log ++ [(tid, Mut.directSet k v)] }.setTask tid
-        (settle w.now t.prog t)
-    | .incr k n =>
-      let v := (w.store k).getD 0 + n
-      let t1 := { t with results := t.results ++ [some v] }
-      { w with store := (Mut.directSet k v).apply w.store, log := w.log ++ [(tid, Mut.directSet k v)] }.setTask tid
-        (settle w.now t1.prog t1)
-    | .get k =>
-      let t1 := { t with results := t.results ++ [w.store k] }
-      w.setTask tid (settle w.now t1.prog t1)
-    | .delete k =>
-      { w with store := (Mut.directDel k).apply w.store, log := w.log ++ [(tid, Mut.directDel k)] }.setTask tid
-        (settle w.now t.prog t)
-    | _ => w
+    let t1 := { t with results := t.results ++ [store k], reads := t.reads ++ [store k] }
+    { store := store, lock := lock, task := settle now t1.prog t1 }
+  | .direct c => directStep now store lock t c
   | .commitDel =>
-    let t1 := if t.ov ≠ [] then { t with pc := .commitSet } else afterCommit t
-    { w with store := (Mut.delMany t.del).apply w.store, log := w.log ++ [(tid, Mut.delMany t.del)] }.setTask tid t1
+    -- `await self._backend.delete_many(*self._to_delete)`
+    { store := (Mut.delMany t.del).apply store, lock := lock,
+      task := if t.ov ≠ [] then { t with pc := .commitSet } else afterCommit t, muts := [.delMany t.del] }
   | .commitSet =>
-    { w with store := (Mut.setMany t.ov).apply w.store, log := w.log ++ [(tid, Mut.setMany t.ov)] }.setTask tid
-      (afterCommit t)
+    -- `await self._backend.set_many(kv, expire=None)`
+    { store := (Mut.setMany t.ov).apply store, lock := lock, task := afterCommit t, muts := [.setMany t.ov] }
   | .unlocking ls o =>
     match ls with
-    | [] => w.setTask tid { t with pc := .finished o }
+    | [] => { store := store, lock := lock, task := { t with pc := .finished o } }
     | l :: rest =>
-      { w with lock := unlockOne w.lock l tid w.now }.setTask tid
-        { t with pc := if rest = [] then .finished o else .unlocking rest o }
-  | .finished _ => w
+      { store := store, lock := unlockOne lock l tid now,
+        task := { t with pc := if rest = [] then .finished o else .unlocking rest o } }
+  | .finished _ => { store := store, lock := lock, task := t }
+
+def World.runTask (w : World) (tid : Nat) : World :=
+  let e := taskStep tid w.now w.store w.lock (w.tasks tid)
+  { now := w.now, store := e.store, lock := e.lock,
+    tasks := fun i => if i = tid then e.task else w.tasks i,
+    log := w.log ++ e.muts.map (fun m => (tid, m)) }
 
 /-- a timer fires for a sleeping task at (or after) its wake-up instant -/
 def wake (now : Nat) (t : Task) : Task :=
